@@ -13,8 +13,12 @@ CHECK = dict(
     floor={"plain-tbb:closures_executed": 1000, "plain-omp:closures_executed": 1000,
            "plain-internal:closures_executed": 1000, "plain-debug:closures_executed": 1000,
            "plain-tbb:asynctask_scenarios": 100, "plain-internal:asynctask_scenarios": 100,
-           "plain-omp:asynctask_scenarios": 100, "plain-debug:asynctask_scenarios": 100},
+           "plain-omp:asynctask_scenarios": 100, "plain-debug:asynctask_scenarios": 100,
+           "plain-internal:reconfigured_while_work_queued": 3, "plain-tbb:reconfigured_while_work_queued": 3,
+           "asan-internal:reconfigured_while_work_queued": 3},
     assumptions=[
+        "re-configuring the tasking system (initTaskingSystem with another thread count, from the thread that submitted) while work is "
+        "queued is a caller action unrelated to that work: it must still run exactly once",
         "'eventually' is bounded: 30 s watchdog while the caller only sleeps, must reproduce on an immediate re-run",
         "the internal backend is exercised with >= 2 threads (with 1 thread it has no worker and runs tasks at shutdown only)",
         "schedules are sampled: bursts, body delays, slow result construction/assignment, hook delays on the internal backend",
